@@ -1,6 +1,7 @@
 import BertE.Lemmas.C03Direct
 import BertE.Model.Build
 import BertE.Props.C01
+import BertE.Props.C06
 /-
 C03 — with queues on, destination branches only advance to CI-validated commits.
 
@@ -109,5 +110,115 @@ example :
     let s1 := (step s (.extSet "feature/x" [1] false)).1
     let s2 := (step s1 (.evalPr ⟨1, "feature/x", .dev 4 (some 3)⟩ .final [] [])).1
     s2.queue.length = 1 ∧ (lastTargeting (selected s2 [1]) (.dev 5 (some 1))).isSome = true := by decide
+
+end BertE.C03
+
+
+/-! ### End to end: the direct merge decided by the composed evaluation (`Model/Eval.lean`)
+
+With queues on and `skip_queue_when_not_needed`, `evalPr` merges directly when `is_needed` answers "no". Everything
+`C03_direct_partial` asks is then discharged from the composed model, EXCEPT:
+  * `chained`: every integration branch after the first contains the tip of its predecessor (`is_needed` only
+    tests that it contains the tip of its TARGET; the other half of `ffReady` holds for branches the robot itself
+    updated, and is what makes the octopus merge a fast-forward) — kept explicit;
+  * `hfirst`: no branch is named `w/<first target>/<source>` (the robot never creates one; the build gate reads
+    the source branch itself for the first target) — kept explicit;
+  * the targets are distinct and the repository state is well-formed (`Sys.WF`, an invariant of `step`).
+The build statuses are those of THE HOST'S TABLE (`Host.status`), read by the gate on the tips of the clone after
+the update: what `hgate` of `C03_direct_partial` assumed is here a consequence of reaching the final stage. -/
+namespace BertE.C03
+open BertE.Git BertE.Flow BertE.C01 BertE.Eval BertE.Reactor
+
+/-- **C03, direct path, end to end (partial: `chained`, `hfirst`).** The evaluation entered (every gate passed
+    in this evaluation), queues are on, the build check is neither bypassed nor without key, and `is_needed`
+    answers "no": the plan ends with ONE atomic pruning push after which every target is where it was, or on a
+    commit whose status in the host's table is SUCCESSFUL, or on a commit that already was the tip of a target. -/
+theorem C03_direct_e2e_partial {c : Eval.Cfg} {msgs : List BertE.Gen.Messages.Msg} (hT : BertE.C06.TblOK c.build msgs)
+    {h : Host} {s : Sys} (hs : s.WF) {id : Nat} {orc : List Bool} {sel : List Nat}
+    {p : Eval.Pr} {st : State} {src : BertE.Names.Parsed} {pr : PrInfo} {sc dc : Commit} {l4 : Loc} {pushW : List Op}
+    (he : Entered c h s id orc sel p st src pr sc dc l4 pushW)
+    (huq : s.useQueue = true) (hdirect : isNeeded s l4 pr (s.targets pr.dst) = false)
+    (hnb : ¬ BertE.C06.e2eBypassed c p st)
+    (hnd : (s.targets pr.dst).Nodup)
+    (hchain : chained l4.g l4.refs pr.src sc ((s.targets pr.dst).drop 1))
+    (hfirst : l4.refs.get (.w pr.dst pr.src) = none) :
+    s.skipQueue = true ∧ s.queue = [] ∧
+    (evalPr c h s id orc sel).plan.g = l4.g ∧
+    ∃ loc, (evalPr c h s id orc sel).plan.ops.getLast? = some (.pushAll loc true) ∧
+      ∀ d ∈ s.targets pr.dst, ∃ n, loc.get (.dest d) = some n ∧
+        (s.remote.get (.dest d) = some n ∨ h.status n = .successful ∨
+          ∃ d' ∈ s.targets pr.dst, s.remote.get (.dest d') = some n) := by
+  have hscv : sc < s.g.size := hs.valid _ _ he.past.srcTip
+  obtain ⟨hwo, _⟩ := (prepare_spec hs pr hscv orc).2 l4 pushW he.updated
+  have hother : l4.refs.get (.other pr.src) = some sc := by
+    rw [hwo.dests _ (fun _ _ hx => by cases hx)]; exact he.past.srcTip
+  have hdest : ∀ d, l4.refs.get (.dest d) = s.remote.get (.dest d) :=
+    fun d => hwo.dests _ (fun _ _ hx => by cases hx)
+  obtain ⟨hskip, hq, sc', dc', hsc', hdc', hle, hall⟩ := evalG_isNeeded_false huq hdirect
+  rw [hother] at hsc'; cases hsc'
+  have hdc4 : l4.refs.get (.dest pr.dst) = some dc := by rw [hdest]; exact he.past.dstTip
+  rw [hdc4] at hdc'; cases hdc'
+  obtain ⟨rest, hts⟩ := evalG_targets_cons s pr.dst
+  rw [hts] at hnd hall hchain
+  simp only [List.drop_succ_cons, List.drop_zero] at hchain
+  have hne : ∀ d ∈ rest, d ≠ pr.dst := by
+    intro d hd he'
+    rw [List.nodup_cons] at hnd
+    exact hnd.1 (he' ▸ hd)
+  have hwref : ∀ d ∈ rest, wRef pr pr.dst d = .w d pr.src := by
+    intro d hd; simp [wRef, hne d hd]
+  have hready : ffReady l4.g l4.refs pr.src sc rest := by
+    apply evalG_ffReady rest sc _ hchain
+    intro d hd
+    obtain ⟨wc, t, h1, h2, h3⟩ := hall d (List.mem_cons_of_mem _ hd)
+    rw [hwref d hd] at h1
+    exact ⟨wc, t, h1, h2, h3⟩
+  have hgreen : BertE.C06.e2eAllGreen h s pr l4 := by
+    rcases BertE.C06.e2e_build_pass hT he.build with hb | hg
+    · exact absurd hb hnb
+    · exact hg
+  have hgate : h.status sc = .successful ∧
+      ∀ d ∈ pr.dst :: rest, ∀ wc, l4.refs.get (.w d pr.src) = some wc → h.status wc = .successful := by
+    constructor
+    · obtain ⟨cm, hcm, hst⟩ := hgreen pr.dst (by rw [hts]; exact List.mem_cons_self)
+      simp only [wRef, if_true] at hcm
+      rw [hother] at hcm; cases hcm; exact hst
+    · intro d hd wc hwc
+      rcases List.mem_cons.mp hd with rfl | hd'
+      · rw [hfirst] at hwc; cases hwc
+      · obtain ⟨cm, hcm, hst⟩ := hgreen d (by rw [hts]; exact List.mem_cons_of_mem _ hd')
+        rw [hwref d hd', hwc] at hcm; cases hcm; exact hst
+  have hsc4 : sc < l4.g.size := Nat.lt_of_lt_of_le hscv hwo.ext.1
+  obtain ⟨hg, loc, hlast, hres⟩ := C03_direct_partial (s := s) hwo.ok pr pr.dst rest hnd pushW hdc4 hsc4 hle hready
+    (fun cm => h.status cm) hgate
+  have hplan : (evalPr c h s id orc sel).plan = directMerge s l4 pr sc (pr.dst :: rest) pushW := by
+    rw [he.plan, hdirect, hts]; simp
+  refine ⟨hskip, hq, by rw [hplan]; exact hg, loc, by rw [hplan]; exact hlast, ?_⟩
+  intro d hd
+  rw [hts] at hd
+  obtain ⟨n, hn, hcase⟩ := hres d hd
+  refine ⟨n, hn, ?_⟩
+  rcases hcase with h1 | h1 | ⟨d', hd', h1⟩
+  · left; rw [← hdest]; exact h1
+  · right; left; exact h1
+  · right; right; exact ⟨d', by rw [hts]; exact hd', by rw [← hdest]; exact h1⟩
+
+/-! Non-vacuity: queues on with `skip_queue_when_not_needed`, one development branch, a source branch on top of
+    it whose tip is green in the host's table: the composed model merges directly, by one atomic pruning push that
+    puts the destination on the (green) source tip. -/
+
+def e2eSys : Sys :=
+  (step (BertE.Drv.C01.initSys true true [.dev 4 (some 3)]) (.extSet "feature/TEST-1" [1] false)).1
+
+def e2eHost : Host :=
+  ⟨[{ id := 1, author := "contrib", src := "feature/TEST-1", dst := "development/4.3", status := "OPEN",
+      comments := [], approvals := [], changeRequests := [], participants := [] }], [(2, .successful)], []⟩
+
+example : (evalPr BertE.C06.exCfg e2eHost e2eSys 1 [] []).stage = .final ∧
+    (evalPr BertE.C06.exCfg e2eHost e2eSys 1 [] []).outcome = "SuccessMessage" ∧
+    isNeeded e2eSys ⟨e2eSys.g, e2eSys.remote, []⟩ ⟨1, "feature/TEST-1", .dev 4 (some 3)⟩ [.dev 4 (some 3)] = false ∧
+    (applyOps (evalPr BertE.C06.exCfg e2eHost e2eSys 1 [] []).plan.g noRej e2eSys.remote
+      (evalPr BertE.C06.exCfg e2eHost e2eSys 1 [] []).plan.ops).get (.dest (.dev 4 (some 3))) = some 2 ∧
+    e2eHost.status 2 = .successful := by decide +kernel
 
 end BertE.C03
